@@ -112,15 +112,23 @@ EvolveDop(U, rho, qL, qR) == MatMul(MatMul(MatPow(U, qL), rho), Dag(MatPow(U, qR
 Evolve(kind, U, p0, qL, qR) == IF kind = "ket" THEN EvolveKet(U, p0, qL) ELSE EvolveDop(U, p0, qL, qR)
 
 \* the four reference states U^q p0 U^-q, q = 0..3 (index q+1)
-Orbit(kind, U, p0) == Vec(4, LAMBDA k : Evolve(kind, U, p0, k - 1, k - 1))
+\* (computed incrementally: p_{k+1} = U p_k (U^dagger))
+Orbit(kind, U, p0) ==
+  LET Ud == Dag(U)
+      step(p) == IF kind = "ket" THEN MatVec(U, p) ELSE MatMul(MatMul(U, p), Ud)
+      p1 == step(p0)
+      p2 == step(p1)
+      p3 == step(p2)
+  IN  <<p0, p1, p2, p3>>
 RefState(orbit, q) == orbit[(q % 4) + 1]
 
 \* conserved quantities (exact)
 Norm2(psi)   == GSum([k \in 1..Len(psi) |-> GMul(GConj(psi[k]), psi[k])])
 Trace(M)     == GSum([k \in 1..Len(M) |-> M[k][k]])
-Purity(M)    == Trace(MatMul(M, M))
-EnergyKet(H, psi) == GSum([k \in 1..Len(psi) |-> GMul(GConj(psi[k]), MatVec(H, psi)[k])])
-EnergyDop(H, rho) == Trace(MatMul(H, rho))
+TraceProd(A, B) == GSum([k \in 1..Len(A) |-> GSum([j \in 1..Len(B) |-> GMul(A[k][j], B[j][k])])])   \* Tr(A B)
+Purity(M)    == TraceProd(M, M)
+EnergyKet(H, psi) == LET hp == MatVec(H, psi) IN GSum([k \in 1..Len(psi) |-> GMul(GConj(psi[k]), hp[k])])
+EnergyDop(H, rho) == TraceProd(H, rho)
 \* <<norm^2 or trace, purity (dop only), energy>>
 Conserved(kind, H, p) ==
   IF kind = "ket" THEN <<Norm2(p), GZero, EnergyKet(H, p)>>
@@ -135,22 +143,6 @@ WellShaped(kind, d, p) ==
 
 IsHermitian(M) == M = Dag(M)
 IsUnitary(U)   == MatMul(U, Dag(U)) = Ident(Len(U))
-
-\* ---- self-check of the reference definitions (evaluated by TLC at start-up) ----
-\* every block propagator is exact (even numerators), unitary, of order 4, commutes with its
-\* Hamiltonian and reduces to the textbook closed forms exp(-i(a + P)pi/2) = (-i)^(a+1) P and
-\* exp(-i(a + 2P)pi/2) = -(-i)^a 1
-ASSUME \A a \in -2..3, s \in -3..3, p \in {<<"X">>, <<"Y">>, <<"Z">>, <<"X", "Y">>, <<"Y", "Z">>, <<"Z", "Z">>, <<"Y", "Y">>} :
-         LET b == [p |-> p, a |-> a, s |-> s]
-             H == BlockH(b)
-             U == BlockU(b)
-         IN  /\ AllEven(BlockU2(b))
-             /\ IsHermitian(H) /\ IsUnitary(U)
-             /\ MatMul(U, H) = MatMul(H, U)
-             /\ MatPow(U, 3) = Dag(U) /\ MatMul(U, MatPow(U, 3)) = Ident(Len(U))
-             /\ (s = 1 => U = MatScale(MIPow(a + 1), Invol(p)))
-             /\ (s = 2 => U = MatScale(MIPow(a + 2), Ident(Len(U))))
-             /\ (s = 0 => U = MatScale(MIPow(a), Ident(Len(U))))
 
 (* =============== Part 2: what must be accepted (reference) ============= *)
 \* "must": documented as supported, has to work.  "may": not promised; the constructor or the
@@ -174,21 +166,31 @@ MustAllowStep(eff, prev, next) == eff = "solve" \/ next >= prev
 
 (* ======================= Part 3: the I-model =========================== *)
 (* Transcription of quimb/evo.py (Evolution.__init__, _setup_solved_ham,    *)
-(* _start_integrator, the _update_to methods). tauL, tauR = evolution time  *)
-(* that has been applied on the left, right of the initial state.         *)
-(*  modes.expm_dop : "left"   - the code at the pinned commit: density      *)
-(*                              operators get expm_multiply on the left only*)
+(* _start_integrator, the _update_to methods, update_to / at_times).        *)
+(* tauL, tauR = evolution time that has been applied on the left, right of  *)
+(* the initial state.  Three behaviours of the pinned commit break the      *)
+(* property; each is a switch so that TLC can show the break (self-test     *)
+(* configurations) and the main configurations check the repaired design:   *)
+(*  modes.expm_dop : "left"   - pinned: density operators get expm_multiply *)
+(*                              on the left only                            *)
 (*                   "both"   - repaired: two sided                         *)
 (*                   "reject" - repaired: constructor refuses               *)
-(*  modes.solve2   : "crash"  - pinned: a 2x2 matrix unpacks as (evals,     *)
-(*                              evecs) and the constructor dies             *)
+(*  modes.solve2   : "crash"  - pinned: `evals, evecs = ham` succeeds for a *)
+(*                              2x2 matrix (two rows): a sparse matrix dies *)
+(*                              in the constructor, a dense one in every    *)
+(*                              update, after self._t was already moved     *)
+(*                   "ok"     - repaired                                    *)
+(*  modes.progbar0 : "crash"  - pinned: with progbar=True the integrator's  *)
+(*                              solout divides by the requested time span;  *)
+(*                              update_to(t) with t = evo.t raises, and the  *)
+(*                              solout stays installed for later at_times   *)
 (*                   "ok"     - repaired                                    *)
 
-ImplNew(kind, method, hrep, dim, t0, modes) ==
+ImplNew(kind, method, hrep, dim, t0, pb, modes) ==
   LET timedep == hrep = "callable"    \* callable and not LinearOperator / Lazy
       base == [status |-> "live", kind |-> kind, method |-> method, hrep |-> hrep, dim |-> dim,
-               t0 |-> t0, eff |-> method, upd |-> "none", tpy |-> t0, tst |-> t0,
-               tauL |-> 0, tauR |-> 0, req |-> t0, exc |-> ""]
+               t0 |-> t0, pb |-> pb, eff |-> method, upd |-> "none", tpy |-> t0, tst |-> t0,
+               tauL |-> 0, tauR |-> 0, req |-> t0, exc |-> "", span0 |-> FALSE]
       rej(e)  == [base EXCEPT !.status = "rejected", !.exc = e]
       solved  == [base EXCEPT !.eff = "solve", !.upd = IF kind = "dop" THEN "solved_dop" ELSE "solved_ket"]
   IN  IF method = "solve" \/ hrep = "tuple"
@@ -196,7 +198,9 @@ ImplNew(kind, method, hrep, dim, t0, modes) ==
            ELSE IF timedep THEN rej("TypeError")
            ELSE IF hrep = "tuple" THEN solved
            ELSE IF hrep = "lazy" THEN rej("TypeError")                \* cannot unpack
-           ELSE IF dim = 2 /\ modes.solve2 = "crash" THEN rej("Crash") \* rows unpack as (evals, evecs)
+           ELSE IF dim = 2 /\ modes.solve2 = "crash"                   \* rows unpack as (evals, evecs)
+                THEN IF hrep = "sparse" THEN rej("ValueError")
+                     ELSE [base EXCEPT !.eff = "solve", !.upd = "solved_broken"]
            ELSE solved
       ELSE IF method = "integrate"
       THEN IF hrep = "lazy" THEN rej("AttributeError")
@@ -213,16 +217,27 @@ ImplNew(kind, method, hrep, dim, t0, modes) ==
 \* Evolution.t
 ImplT(st) == IF st.eff = "integrate" THEN st.tst ELSE st.tpy
 
-ImplUpdate(st, t) ==
-  LET s == [st EXCEPT !.req = t, !.exc = ""] IN
+\* via = "update_to" (goes through the progress-bar wrapper) or "at_times" (calls _update_method directly)
+ImplUpdate(st, t, via, modes) ==
+  LET s == [st EXCEPT !.req = t, !.exc = ""]
+      \* progress bar of an integrating evolution: a new bar per update_to, the old solout for at_times
+      bar   == st.upd = "integrate" /\ st.pb /\ modes.progbar0 = "crash"
+      span0 == IF bar /\ via = "update_to" THEN t = ImplT(st) ELSE st.span0
+  IN
   CASE st.upd = "solved_ket" -> [s EXCEPT !.tpy = t, !.tauL = t - st.t0]
     [] st.upd = "solved_dop" -> [s EXCEPT !.tpy = t, !.tauL = t - st.t0, !.tauR = t - st.t0]
-    [] st.upd = "integrate"  -> [s EXCEPT !.tst = t, !.tauL = @ + (t - st.tst),
-                                          !.tauR = IF st.kind = "dop" THEN @ + (t - st.tst) ELSE @]
+    [] st.upd = "solved_broken" -> [s EXCEPT !.tpy = t, !.exc = "TypingError"]    \* time moved, state not
+    [] st.upd = "integrate"  ->
+         IF bar /\ span0 THEN [s EXCEPT !.exc = "ZeroDivisionError", !.span0 = span0]
+         ELSE [s EXCEPT !.tst = t, !.tauL = @ + (t - st.tst), !.span0 = span0,
+                        !.tauR = IF st.kind = "dop" THEN @ + (t - st.tst) ELSE @]
     [] st.upd = "expm_ket"   -> [s EXCEPT !.tpy = t, !.tauL = @ + (t - ImplT(st))]
     [] st.upd = "expm_both"  -> [s EXCEPT !.tpy = t, !.tauL = @ + (t - ImplT(st)),
                                           !.tauR = IF st.kind = "dop" THEN @ + (t - ImplT(st)) ELSE @]
     [] OTHER                 -> [s EXCEPT !.exc = "AttributeError"]      \* expm_fail: state untouched
 
-PinnedModes   == [expm_dop |-> "left", solve2 |-> "crash"]
+\* the book-keeping says "evolved by exactly t - t0, on both sides"
+ImplTimeOK(s) == s.tauL = ImplT(s) - s.t0 /\ (s.kind = "dop" => s.tauR = ImplT(s) - s.t0)
+
+PinnedModes   == [expm_dop |-> "left", solve2 |-> "crash", progbar0 |-> "crash"]
 =============================================================================
